@@ -34,6 +34,9 @@ pub struct Spec {
     history: Vec<Kind>,
     /// the last connection performs a full login instead of a status exchange
     login_last: bool,
+    /// run against passage::start(config) in a child process (configuration -> listener wiring included)
+    #[serde(default)]
+    via_start: bool,
 }
 
 fn k(peer: &str, header: &str) -> Kind {
@@ -96,11 +99,11 @@ fn expect(proxy: &str, kind: &Kind, peer_addr: SocketAddr) -> Expect {
     if proxy == "off" {
         return Expect::Limited(peer_addr);
     }
-    let version_allowed = |v: &str| proxy == "v1v2" || v == "v2";
+    let version_allowed = |v: &str| proxy == "v1v2" || (proxy == "v2only" && v == "v2") || (proxy == "v1only" && v == "v1");
     match kind.header.as_str() {
         "none" | "malformed" | "truncated" => Expect::ClosedUncounted,
         "v1-unknown" => if version_allowed("v1") { Expect::PeerOrClosed } else { Expect::ClosedUncounted },
-        "v2-local" => Expect::PeerOrClosed,
+        "v2-local" => if version_allowed("v2") { Expect::PeerOrClosed } else { Expect::ClosedUncounted },
         h => {
             let (v, a) = h.split_at(2);
             if version_allowed(v) { Expect::Limited(a[1..].parse().unwrap()) } else { Expect::ClosedUncounted }
@@ -151,6 +154,9 @@ async fn run_connection(server: SocketAddr, kind: &Kind, login: bool) -> ConnObs
 }
 
 fn run_history(spec: &Spec) -> Vec<(String, String)> {
+    if spec.via_start {
+        return run_history_via_start(spec);
+    }
     run_local(async {
         let mut v: Vec<(String, String)> = vec![];
         let adapters = NetAdapters::new();
@@ -240,6 +246,59 @@ fn run_history(spec: &Spec) -> Vec<(String, String)> {
     })
 }
 
+/// the same oracle against the whole application (child process): only what a client can see is judged
+fn run_history_via_start(spec: &Spec) -> Vec<(String, String)> {
+    let mode = match spec.proxy.as_str() {
+        "v1only" => "v1",
+        "v2only" => "v2",
+        "v1v2" => "v1v2",
+        _ => "off",
+    };
+    let app = spawn_app(10_000, 60, 20, mode, spec.limit);
+    let addr = app.addr;
+    let v = run_local(async {
+        let mut v: Vec<(String, String)> = vec![];
+        let mut shadow: Option<RateLimiter<IpAddr>> = (spec.limit > 0).then(|| RateLimiter::new(Duration::from_secs(3600), spec.limit));
+        if mode == "off" {
+            // the readiness probe came from 127.0.0.1 and was charged to it
+            if let Some(s) = shadow.as_mut() {
+                let _ = s.enqueue("127.0.0.1".parse().unwrap());
+            }
+        }
+        for (i, kind) in spec.history.iter().enumerate() {
+            let obs = run_connection(addr, kind, false).await;
+            let mut bad = |key: String, t: String| v.push((format!("{key}:through-passage-start"), format!("connection #{i} {kind:?} (passage::start, proxy {mode}): {t}")));
+            match expect(&spec.proxy, kind, obs.local) {
+                Expect::ClosedUncounted => {
+                    if obs.served || obs.bytes_received > 0 {
+                        bad(format!("served-without-valid-header:{}", kind.header.split(':').next().unwrap()), format!("received {} bytes ({})", obs.bytes_received, obs.detail));
+                    }
+                }
+                Expect::Limited(eff) => {
+                    let admit = shadow.as_mut().map(|s| s.enqueue(eff.ip())).unwrap_or(true);
+                    if admit && !obs.served {
+                        bad("admitted-address-not-served".into(), format!("effective address {eff}: the limiter admits it but the connection was not served ({})", obs.detail));
+                    }
+                    if !admit && (obs.served || obs.bytes_received > 0) {
+                        bad("refused-address-served".into(), format!("effective address {eff}: the limiter refuses it but the client received {} bytes", obs.bytes_received));
+                    }
+                }
+                Expect::PeerOrClosed => {
+                    if obs.served {
+                        let _ = shadow.as_mut().map(|s| s.enqueue(obs.local.ip()));
+                    }
+                }
+            }
+        }
+        v
+    });
+    let mut v = v;
+    if stop_app(app) != Some(0) {
+        v.push(("ctrl-c-does-not-stop-cleanly:through-passage-start".into(), "the application did not exit cleanly after SIGINT".into()));
+    }
+    v
+}
+
 fn histories(proxy: &str, depth: usize) -> Vec<Vec<Kind>> {
     let ks = kinds(proxy);
     let mut out: Vec<Vec<Kind>> = vec![];
@@ -288,18 +347,27 @@ pub fn run(cli: Cli) -> ! {
                 if limit == 0 && h.len() > 2 {
                     continue; // without a limiter histories add nothing beyond pairs
                 }
-                specs.push(Spec { proxy: proxy.into(), limit, history: h, login_last: false });
+                specs.push(Spec { proxy: proxy.into(), limit, history: h, login_last: false, via_start: false });
             }
         }
         // one history per configuration and limiter setting ends in a full login
         for limit in [0usize, 2] {
             let ks = kinds(proxy);
             for first in [ks[0].clone(), ks[ks.len() - 1].clone()] {
-                specs.push(Spec { proxy: proxy.into(), limit, history: vec![first, ks[0].clone()], login_last: true });
+                specs.push(Spec { proxy: proxy.into(), limit, history: vec![first, ks[0].clone()], login_last: true, via_start: false });
                 if proxy != "off" {
-                    specs.push(Spec { proxy: proxy.into(), limit, history: vec![ks[4].clone()], login_last: true });
+                    specs.push(Spec { proxy: proxy.into(), limit, history: vec![ks[4].clone()], login_last: true, via_start: false });
                 }
             }
+        }
+    }
+    // configuration -> listener wiring: the same kinds against passage::start for the one-version configurations
+    for proxy in ["v1only", "v2only", "v1v2", "off"] {
+        let ks = kinds(if proxy == "off" { "off" } else { "v1v2" });
+        for limit in [0usize, 1] {
+            // one history that walks through every kind once, and its reverse
+            specs.push(Spec { proxy: proxy.into(), limit, history: ks.clone(), login_last: false, via_start: true });
+            specs.push(Spec { proxy: proxy.into(), limit, history: ks.iter().rev().cloned().collect(), login_last: false, via_start: true });
         }
     }
     let rot = common::seed() as usize % specs.len();
@@ -331,7 +399,7 @@ pub fn run(cli: Cli) -> ! {
     rep.set("exhaustive", json!(true));
     rep.set("rule", json!("all arrival histories up to depth 3/4 over 12 connection kinds (two load-balancer peers; PROXY v1/v2 headers announcing two IPv4 and one IPv6 source; absent, malformed, truncated, disabled-version and address-less headers) for PROXY {v1+v2, v2 only, off} x limiter {limit 1, limit 2, off} with a one hour window; each connection is a real TCP connection that ends at a barrier (status reply or end of stream); plus histories ending in a full login. distinct_nontrivial = distinct (configuration, sequence of header classes)."));
     rep.sample(json!({"spec": specs[0]}));
-    rep.sample(json!({"spec": Spec { proxy: "v1v2".into(), limit: 1, history: vec![k("127.0.0.1", &format!("v1:{X}")), k("127.0.0.2", &format!("v1:{X}")), k("127.0.0.1", "none")], login_last: false }, "expect": "served, refused (same announced source through another load balancer), closed uncounted"}));
+    rep.sample(json!({"spec": Spec { proxy: "v1v2".into(), limit: 1, history: vec![k("127.0.0.1", &format!("v1:{X}")), k("127.0.0.2", &format!("v1:{X}")), k("127.0.0.1", "none")], login_last: false, via_start: false }, "expect": "served, refused (same announced source through another load balancer), closed uncounted"}));
     rep.assume("the verdict 'served exactly when the limiter admits' uses a shadow instance of the real RateLimiter fed with the reference model's effective addresses (the limiter's own bounds are C13's subject)");
     rep.assume("headers that are valid but announce no address (v1 UNKNOWN, v2 LOCAL) may be closed or treated as the peer; OS scheduling of loopback sockets is not controlled, every verdict is taken at a barrier with a 2 s deadline");
     rep.finish()
